@@ -483,7 +483,7 @@ func c11Overrides(w *World, r *Report, sites []*cachingSite) {
 							}
 						}
 					}
-					if consumes && errorResultUsed(cc) {
+					if consumes && errorResultUsed(cc) && !dependsOnCachedContent(w, G, s.Get, cc, hit) {
 						eff = true
 					}
 				}
@@ -987,6 +987,55 @@ func c11ReloadableInKey(w *World, r *Report, ci *types.Named) {
 		sort.Strings(ws)
 		r.Ob(ri, w.FnName(fn)+"|covers-reloadable-state", fn.Pos(), reads,
 			fmt.Sprintf("Hash() reads none of the fields the reload replaces (%s): a cache key built from it does not change when the state is reloaded, so results produced with the old state keep being served", strings.Join(ws, ", ")))
+		// ... and among them the one that identifies the key in the product: what a reader method
+		// writes into the token's "kid" header must reach the digest of Hash() (a rotation that keeps
+		// the algorithm changes nothing else)
+		for g := range reader {
+			for _, c := range callsIn(g) {
+				if !strings.HasSuffix(callName(c.Common()), "SignerOptions.WithHeader") {
+					continue
+				}
+				args := callArgs(c.Common())
+				if len(args) < 2 {
+					continue
+				}
+				if k, ok := constString(stripConv(args[0])); !ok || k != "kid" {
+					continue
+				}
+				root, idp := accessPathThroughCopy(stripConv(args[1]))
+				if len(g.Params) == 0 || root != ssa.Value(g.Params[0]) || len(idp) == 0 || !written[idp[0]] {
+					continue
+				}
+				var sinks []ssa.Value
+				for _, hc := range callsIn(fn) {
+					if isOrderSensitiveSink(hc.Common()) {
+						sinks = append(sinks, callArgs(hc.Common())...)
+					}
+				}
+				covered := false
+				for _, sv := range sinks {
+					if dependsOn(w, sv, func(x ssa.Value) bool {
+						xr, xp := accessPathThroughCopy(x)
+						if _, isAddr := x.(*ssa.FieldAddr); isAddr {
+							return false
+						}
+						if xr != ssa.Value(fn.Params[0]) || len(xp) != len(idp) {
+							return false
+						}
+						for i := range xp {
+							if xp[i] != idp[i] {
+								return false
+							}
+						}
+						return true
+					}) {
+						covered = true
+					}
+				}
+				r.Ob(ri, w.FnName(fn)+"|covers-key-id", fn.Pos(), covered,
+					fmt.Sprintf("%s writes %s into the kid header of what is cached, but Hash() does not digest it: after a key rotation the cache key stays the same and tokens signed with the replaced key keep being served", g.Name(), strings.Join(idp, ".")))
+			}
+		}
 	}
 	if n == 0 {
 		r.Undecided(ri, "no reloadable type with a Hash() method found")
@@ -1147,4 +1196,89 @@ func httpCacheKey(w *World, r *Report, ci *types.Named, id, text string) {
 		r.Ob(ri, name+"|method-in-key", k.Pos(), method, "the key of the HTTP response cache does not depend on the request method")
 		r.Ob(ri, name+"|credential-in-key", k.Pos(), auth, "the key of the HTTP response cache does not depend on the Authorization header: a response fetched with one credential is served for another")
 	}
+}
+
+// accessPathThroughCopy: like accessPath, but a local that holds a copy of a struct field
+// (`jwk := s.jwk`) stands for that field.
+func accessPathThroughCopy(v ssa.Value) (ssa.Value, []string) {
+	root, p := accessPath(v)
+	for depth := 0; depth < 3; depth++ {
+		al, ok := root.(*ssa.Alloc)
+		if !ok || al.Referrers() == nil {
+			break
+		}
+		var src ssa.Value
+		n := 0
+		for _, rf := range *al.Referrers() {
+			if st, ok := rf.(*ssa.Store); ok && st.Addr == ssa.Value(al) {
+				n++
+				src = st.Val
+			}
+		}
+		if n != 1 {
+			break
+		}
+		r2, p2 := accessPath(src)
+		if r2 == nil || len(p2) == 0 {
+			break
+		}
+		root, p = r2, append(append([]string{}, p2...), p...)
+	}
+	return root, p
+}
+
+// dependsOnCachedContent: whether the call c (in the hit region of G) is executed depends on the
+// *content* of the cached entry: a branch that dominates c, lies in the hit region and tests a value
+// read from the cache entry (the Get result or what it was decoded into) - other than the error of
+// the lookup / decoding itself. A policy check that runs only for some cached contents lets the
+// other contents pass unchecked.
+func dependsOnCachedContent(w *World, G *ssa.Function, get ssa.CallInstruction, c ssa.Instruction, hit map[*ssa.BasicBlock]bool) bool {
+	getV, _ := get.(ssa.Value)
+	fromGet := func(v ssa.Value) bool {
+		return dependsOn(w, v, func(x ssa.Value) bool { return getV != nil && x == getV })
+	}
+	// decode targets: allocs handed to a call of the hit region together with something read from the cache
+	targets := map[ssa.Value]bool{}
+	for _, ci := range callsIn(G) {
+		if !hit[ci.Block()] {
+			continue
+		}
+		has := false
+		for _, a := range ci.Common().Args {
+			if fromGet(a) {
+				has = true
+			}
+		}
+		if !has {
+			continue
+		}
+		for _, a := range ci.Common().Args {
+			if al, ok := stripConv(a).(*ssa.Alloc); ok {
+				targets[al] = true
+			}
+		}
+	}
+	for _, b := range G.Blocks {
+		if !hit[b] || b == c.Block() || !b.Dominates(c.Block()) || len(b.Instrs) == 0 {
+			continue
+		}
+		br, ok := b.Instrs[len(b.Instrs)-1].(*ssa.If)
+		if !ok {
+			continue
+		}
+		// error tests of calls are the lookup / decoding succeeding, not content
+		isErrTest := false
+		for _, f := range condFacts(br.Cond, true) {
+			if (f.Kind == FNil || f.Kind == FNonNil) && f.V != nil && isErrorType(f.V.Type()) {
+				isErrTest = true
+			}
+		}
+		if isErrTest {
+			continue
+		}
+		if dependsOn(w, br.Cond, func(x ssa.Value) bool { return targets[x] || (getV != nil && x == getV) }) {
+			return true
+		}
+	}
+	return false
 }
